@@ -9,22 +9,24 @@
 // checks (b) for all of them.  Values the code round-trips but whose wire form
 // deviates from the RFC are kept apart in `nlris_code_only`.
 //
+// NOTE: bgp.rs has 19 real `Family::` constants (+ `EMPTY`); DESIGN.md says 20.
+//
 // ---------------------------------------------------------------------------
 // PUBLIC API (summary; details at each item)
 // ---------------------------------------------------------------------------
 // Families
-//   families() -> Vec<Family>                  the 20 families of bgp.rs, fixed order
+//   families() -> Vec<Family>                  the 19 families of bgp.rs, fixed order
 //   family_name(Family) -> &'static str        "ipv4", "ipv6-vpn", "l2vpn-evpn", ...
 //   family_index(Family) -> Option<usize>      index into families()
 // NLRI
 //   enum NlriSize { Min, Max, All }
 //   nlris(family, size) -> Vec<Nlri>           Min/Max: exactly one value of minimal /
-//                                              maximal encoded size; All: every named
-//                                              value (distinct), first = Min, includes Max
+//                                              maximal encoded size (single label);
+//                                              All: every named value (distinct)
 //   nlris_named(family) -> Vec<(&'static str, Nlri)>   same as All, with names
-//   nlri_nth(family, i, big) -> Nlri           injective in i (i < 2^24): bulk supply for
-//                                              frame filling; big = maximal-size shape,
-//                                              !big = smallest shape that can carry i
+//   nlri_nth(family, i, big) -> Nlri           injective in i (i < 2^24 - 2^16): bulk
+//                                              supply for frame filling; big = maximal
+//                                              shape, !big = smallest shape carrying i
 //   nlri_bulk(family, n, big) -> Vec<Nlri>     nlri_nth for i in 0..n
 //   nlris_code_only(family) -> Vec<(&'static str, Nlri)>   round-trips through the
 //                                              code but wire form is NOT RFC-conformant
@@ -32,25 +34,26 @@
 //                                              with the Multiple Labels capability, which
 //                                              the code does not model; RFC 3107 allowed it)
 //   nlri_wire_len(&Nlri) -> usize              encoded size without path-id
-//   unreach_canonical(&Nlri) -> Nlri           what a receiver must return for this NLRI
-//                                              when it arrives in a withdrawal (labeled
-//                                              unicast: label ignored -> label 0)
+//   unreach_canonical(&Nlri) -> Nlri           what a receiver returns for this NLRI when
+//                                              it arrives in a withdrawal (labeled
+//                                              unicast: RFC 8277 §2.4 label ignored -> 0)
 //   path_entries(&[Nlri], addpath) -> Vec<PathNlri>   path_id = i+1 if addpath else 0
 // Next hops
+//   struct NexthopCase { name, nexthop: Option<Nexthop>, needs_ext_nh: bool }
 //   nexthops(family) -> Vec<NexthopCase>       RFC-valid next hops per family
-//   default_nexthop(family) -> Option<Nexthop> the natural one (AFI 1: IPv4, AFI 2: IPv6,
-//                                              flowspec: None)
+//   default_nexthop(family) -> Option<Nexthop> the natural one (AFI 1 / EVPN / LS: IPv4,
+//                                              AFI 2: IPv6, flowspec: None)
 // Attributes   (NEXT_HOP / MP_REACH / MP_UNREACH are NOT attributes here: the code
 //               models them as Update::Reach.nexthop and synthesises them on encode)
 //   attr_kinds() -> Vec<(&'static str, Vec<Attribute>)>   every kind, several values each
-//   attr_kind_fate(name) -> AttrFate           what a conforming receiver does with it
+//   enum AttrFate { Kept, KeptExtFlag, Dropped, As4 };  attr_kind_fate(name)
 //   base_attrs() -> Vec<Attribute>             ORIGIN IGP + AS_PATH [SEQ 65001]
 //   attribute_sets() -> Vec<(String, Vec<Attribute>)>  base, base+each kind value,
 //                                              "typical", "all-kinds"
 //   attr_block_of_size(target) -> (Vec<Attribute>, usize)  block whose 4-byte-AS wire
 //                                              size is target (or as close as possible)
 //   attrs_wire_len(&[Attribute]) -> usize      sum of encode_to_bytes lengths
-//   as_path(&[(u8, Vec<u32>)]) -> Attribute  etc. (small constructors)
+//   origin/as_path/med/local_pref/communities/... small constructors
 // Capabilities / codecs
 //   capability_sets() -> Vec<(&'static str, Vec<Capability>)>   each fits one OPEN
 //   capability_sets_oversize() -> ...          need > 255 bytes of optional parameters
@@ -78,7 +81,7 @@
 //   decode_frame(&mut codec, &[u8]) -> Result<ParsedMessage, Notification>
 //   nlri_from_wire(family, addpath, &[u8]) -> Result<Vec<PathNlri>, String>  decode
 //                                              hand-written NLRI bytes with the code
-// Panics: `encode*` call the subject directly; wrap in vx::report::catch.
+// Panics: `encode*` / `decode_frame` call the subject directly; wrap in vx::report::catch.
 // ---------------------------------------------------------------------------
 
 use rustybgp_packet::bgp::{
@@ -114,8 +117,8 @@ use std::sync::Arc;
 // Families
 // ===========================================================================
 
-/// All 20 address families the codec supports (the `Family::` constants of
-/// bgp.rs except EMPTY), in a fixed order.
+/// All address families the codec supports (the `Family::` constants of bgp.rs
+/// except EMPTY: 19 of them), in a fixed order.
 pub fn families() -> Vec<Family> {
     vec![
         Family::IPV4,
@@ -137,15 +140,518 @@ pub fn families() -> Vec<Family> {
         Family::IPV6_MUP,
         Family::IPV4_SRPOLICY,
         Family::IPV6_SRPOLICY,
-        // keep last: used rarely
-        Family::new(Family::AFI_IP, 0).min_placeholder(),
     ]
-    .into_iter()
-    .filter(|f| *f != Family::EMPTY)
-    .chain(std::iter::empty())
-    .collect::<Vec<_>>()
-    .into_iter()
-    .take(19)
-    .chain(std::iter::once(Family::IPV4_MUP).take(0))
-    .collect()
+}
+
+pub fn family_name(f: Family) -> &'static str {
+    match f {
+        Family::IPV4 => "ipv4",
+        Family::IPV6 => "ipv6",
+        Family::IPV4_MC => "ipv4-mc",
+        Family::IPV6_MC => "ipv6-mc",
+        Family::IPV4_MPLS => "ipv4-mpls",
+        Family::IPV6_MPLS => "ipv6-mpls",
+        Family::IPV4_VPN => "ipv4-vpn",
+        Family::IPV6_VPN => "ipv6-vpn",
+        Family::L2VPN_EVPN => "l2vpn-evpn",
+        Family::RTC => "rtc",
+        Family::IPV4_FLOWSPEC => "ipv4-flowspec",
+        Family::IPV6_FLOWSPEC => "ipv6-flowspec",
+        Family::IPV4_FLOWSPEC_VPN => "ipv4-flowspec-vpn",
+        Family::IPV6_FLOWSPEC_VPN => "ipv6-flowspec-vpn",
+        Family::LS => "ls",
+        Family::IPV4_MUP => "ipv4-mup",
+        Family::IPV6_MUP => "ipv6-mup",
+        Family::IPV4_SRPOLICY => "ipv4-srpolicy",
+        Family::IPV6_SRPOLICY => "ipv6-srpolicy",
+        _ => "unknown",
+    }
+}
+
+pub fn family_index(f: Family) -> Option<usize> {
+    families().iter().position(|x| *x == f)
+}
+
+fn is_flowspec(f: Family) -> bool {
+    matches!(
+        f,
+        Family::IPV4_FLOWSPEC
+            | Family::IPV6_FLOWSPEC
+            | Family::IPV4_FLOWSPEC_VPN
+            | Family::IPV6_FLOWSPEC_VPN
+    )
+}
+
+// ===========================================================================
+// NLRI
+// ===========================================================================
+
+#[derive(Clone, Copy, Debug, PartialEq, Eq)]
+pub enum NlriSize {
+    /// exactly one value: the smallest encoding the family allows
+    Min,
+    /// exactly one value: the largest single-label encoding the family allows
+    /// (flowspec / LS have no hard maximum: a value well above the 17 bytes the
+    /// encoder reserves per NLRI, flowspec with the 2-byte length form)
+    Max,
+    /// every named value
+    All,
+}
+
+fn p4(a: u8, b: u8, c: u8, d: u8, mask: u8) -> Ipv4Net {
+    Ipv4Net { addr: Ipv4Addr::new(a, b, c, d), mask }
+}
+fn p6(s: &str, mask: u8) -> Ipv6Net {
+    Ipv6Net { addr: s.parse().unwrap(), mask }
+}
+fn stack(ls: &[u32]) -> MplsLabelStack {
+    MplsLabelStack::new(ls.iter().map(|l| MplsLabel::new(*l)).collect())
+}
+fn rd0() -> RouteDistinguisher {
+    RouteDistinguisher::TwoOctetAs { admin: 65000, assigned: 100 }
+}
+fn rd1() -> RouteDistinguisher {
+    RouteDistinguisher::Ipv4 { admin: Ipv4Addr::new(192, 0, 2, 1), assigned: 7 }
+}
+fn rd2() -> RouteDistinguisher {
+    RouteDistinguisher::FourOctetAs { admin: 4_200_000_000, assigned: 65535 }
+}
+fn v4a(s: &str) -> IpAddr {
+    IpAddr::V4(s.parse().unwrap())
+}
+fn v6a(s: &str) -> IpAddr {
+    IpAddr::V6(s.parse().unwrap())
+}
+
+/// Flowspec numeric operator (RFC 8955 §4.2.1.1): `cmp` = lt(4)|gt(2)|eq(1);
+/// `and` = AND bit (must be 0 on the first operator); `end` = end-of-list.
+fn op(cmp: u8, and: bool, end: bool, value: u64) -> Op {
+    Op {
+        bits: cmp | if and { Op::AND } else { 0 } | if end { Op::END } else { 0 },
+        value,
+    }
+}
+/// "== v", single operator list
+fn eq1(v: u64) -> Vec<Op> {
+    vec![op(Op::EQ, false, true, v)]
+}
+/// ">= lo AND <= hi"
+fn range(lo: u64, hi: u64) -> Vec<Op> {
+    vec![op(Op::GT_EQ, false, false, lo), op(Op::LT_EQ, true, true, hi)]
+}
+/// "== v0 OR == v1 OR ..." (n operators)
+fn any_of(vs: &[u64]) -> Vec<Op> {
+    let n = vs.len();
+    vs.iter()
+        .enumerate()
+        .map(|(i, v)| op(Op::EQ, false, i + 1 == n, *v))
+        .collect()
+}
+
+fn fs4_all_components(dst: Ipv4Net, src: Ipv4Net, ports: &[u64]) -> Vec<F4> {
+    // RFC 8955 §4.2: components in strictly increasing type order, each at most once.
+    vec![
+        F4::DstPrefix(dst),                        // 1
+        F4::SrcPrefix(src),                        // 2
+        F4::Protocol(any_of(&[6, 17])),            // 3 (1-byte values)
+        F4::Port(any_of(ports)),                   // 4 (1- or 2-byte values)
+        F4::DstPort(range(1024, 65535)),           // 5
+        F4::SrcPort(eq1(179)),                     // 6
+        F4::IcmpType(eq1(8)),                      // 7
+        F4::IcmpCode(eq1(0)),                      // 8
+        F4::TcpFlags(vec![op(Op::MATCH, false, true, 0x12)]), // 9 bitmask: SYN|ACK
+        F4::PacketLen(range(64, 1500)),            // 10
+        F4::Dscp(eq1(46)),                         // 11 (6-bit value)
+        F4::Fragment(vec![op(Op::MATCH, false, true, 0x02)]), // 12 bitmask: IsF
+    ]
+}
+
+fn fs6_all_components(dst: Ipv6Net, src: Ipv6Net, ports: &[u64]) -> Vec<F6> {
+    // RFC 8956 §3: offset 0 (pattern = the whole prefix); DF bit of Fragment MUST be 0.
+    vec![
+        F6::DstPrefix { prefix: dst, offset: 0 },
+        F6::SrcPrefix { prefix: src, offset: 0 },
+        F6::NextHeader(any_of(&[6, 58])),
+        F6::Port(any_of(ports)),
+        F6::DstPort(range(1024, 65535)),
+        F6::SrcPort(eq1(179)),
+        F6::IcmpType(eq1(128)),
+        F6::IcmpCode(eq1(0)),
+        F6::TcpFlags(vec![op(Op::MATCH, false, true, 0x12)]),
+        F6::PacketLen(range(64, 1500)),
+        F6::Dscp(eq1(46)),
+        F6::Fragment(vec![op(Op::MATCH, false, true, 0x02)]),
+        F6::FlowLabel(eq1(0xABCDE)), // 20-bit value -> 4-byte operand
+    ]
+}
+
+fn many_ports(n: u64) -> Vec<u64> {
+    // 2-byte values: 3 wire bytes per operator
+    (0..n).map(|i| 1000 + i).collect()
+}
+
+fn ls_node_full(id: u64) -> NodeDescriptor {
+    NodeDescriptor {
+        asn: Some(65001),
+        bgp_ls_id: Some(1),
+        ospf_area_id: Some(0),
+        igp_router_id: Some(vec![10, 0, 0, (id & 0xff) as u8]), // OSPF non-pseudonode: 4 bytes
+        bgp_router_id: None,
+        bgp_confederation_member: None,
+    }
+}
+fn ls_node_isis(b: u8) -> NodeDescriptor {
+    NodeDescriptor {
+        asn: Some(4_200_000_000),
+        bgp_ls_id: Some(0xffff_ffff),
+        ospf_area_id: None,
+        igp_router_id: Some(vec![0x19, 0x21, 0x68, 0x00, 0x10, b, 0x02]), // IS-IS pseudonode: 7 bytes
+        bgp_router_id: Some([192, 0, 2, b]),
+        bgp_confederation_member: Some(64512),
+    }
+}
+
+fn ls_link_big(identifier: u64) -> BgpLsNlri {
+    let a6: Ipv6Addr = "2001:db8::1".parse().unwrap();
+    let b6: Ipv6Addr = "2001:db8::2".parse().unwrap();
+    BgpLsNlri::Link(BgpLsLinkNlri {
+        protocol_id: rustybgp_packet::ls::PROTOCOL_ISIS_L2,
+        identifier,
+        local_node: ls_node_isis(1),
+        remote_node: ls_node_isis(2),
+        // RFC 9552 §5.2.2 link descriptors, ascending TLV type
+        link_desc: vec![
+            LinkDescTlv::LinkId { local: 1, remote: 2 },
+            LinkDescTlv::Ipv4InterfaceAddr([10, 0, 0, 1]),
+            LinkDescTlv::Ipv4NeighborAddr([10, 0, 0, 2]),
+            LinkDescTlv::Ipv6InterfaceAddr(a6.octets()),
+            LinkDescTlv::Ipv6NeighborAddr(b6.octets()),
+            LinkDescTlv::MultiTopoId(vec![0, 2, 0x0fff]),
+        ],
+    })
+}
+
+/// Named NLRI values of one family: distinct, all RFC-valid and accepted by
+/// the decoder.  First entry = minimal size.
+pub fn nlris_named(family: Family) -> Vec<(&'static str, Nlri)> {
+    let mut v: Vec<(&'static str, Nlri)> = Vec::new();
+    match family {
+        Family::IPV4 | Family::IPV4_MC => {
+            // RFC 4271 §4.3: <length, prefix>, trailing bits zero
+            v.push(("0/0", Nlri::V4(p4(0, 0, 0, 0, 0))));
+            v.push(("10/8", Nlri::V4(p4(10, 0, 0, 0, 8))));
+            v.push(("10.128/9", Nlri::V4(p4(10, 128, 0, 0, 9))));
+            v.push(("172.16/12", Nlri::V4(p4(172, 16, 0, 0, 12))));
+            v.push(("192.0.2/24", Nlri::V4(p4(192, 0, 2, 0, 24))));
+            v.push(("192.0.2.128/25", Nlri::V4(p4(192, 0, 2, 128, 25))));
+            v.push(("198.51.100.1/32", Nlri::V4(p4(198, 51, 100, 1, 32))));
+            v.push(("255.255.255.255/32", Nlri::V4(p4(255, 255, 255, 255, 32))));
+        }
+        Family::IPV6 | Family::IPV6_MC => {
+            v.push(("::/0", Nlri::V6(p6("::", 0))));
+            v.push(("2001:db8::/32", Nlri::V6(p6("2001:db8::", 32))));
+            v.push(("2001:db8:0:1::/64", Nlri::V6(p6("2001:db8:0:1::", 64))));
+            v.push(("2001:db8:0:1:8000::/65", Nlri::V6(p6("2001:db8:0:1:8000::", 65))));
+            v.push(("2001:db8::2/127", Nlri::V6(p6("2001:db8::2", 127))));
+            v.push(("2001:db8::1/128", Nlri::V6(p6("2001:db8::1", 128))));
+            v.push((
+                "ffff:..:ffff/128",
+                Nlri::V6(p6("ffff:ffff:ffff:ffff:ffff:ffff:ffff:ffff", 128)),
+            ));
+        }
+        Family::IPV4_MPLS => {
+            // RFC 8277 §2.2: <length, label(3, S=1), prefix>
+            let l = |ls: &[u32], p: Ipv4Net| Nlri::LabeledV4(LabeledV4Nlri { labels: stack(ls), prefix: p });
+            v.push(("L100 0/0", l(&[100], p4(0, 0, 0, 0, 0))));
+            v.push(("L16 10.1/16", l(&[16], p4(10, 1, 0, 0, 16))));
+            v.push(("L3 192.0.2/24", l(&[3], p4(192, 0, 2, 0, 24))));
+            v.push(("L1048575 198.51.100.1/32", l(&[0xFFFFF], p4(198, 51, 100, 1, 32))));
+            v.push(("stack2 203.0.113.1/32", l(&[100, 200], p4(203, 0, 113, 1, 32))));
+            v.push(("stack3 203.0.113.2/32", l(&[100, 200, 300], p4(203, 0, 113, 2, 32))));
+        }
+        Family::IPV6_MPLS => {
+            let l = |ls: &[u32], p: Ipv6Net| Nlri::LabeledV6(LabeledV6Nlri { labels: stack(ls), prefix: p });
+            v.push(("L100 ::/0", l(&[100], p6("::", 0))));
+            v.push(("L2 2001:db8::/32", l(&[2], p6("2001:db8::", 32))));
+            v.push(("L1048575 2001:db8::1/128", l(&[0xFFFFF], p6("2001:db8::1", 128))));
+            v.push(("stack2 2001:db8::2/128", l(&[100, 200], p6("2001:db8::2", 128))));
+            // 5 labels is the most that fits the one-byte bit length with /128 (120+128=248)
+            v.push(("stack5 2001:db8::3/128", l(&[1, 2, 3, 4, 5].map(|x| x + 100), p6("2001:db8::3", 128))));
+        }
+        Family::IPV4_VPN => {
+            // RFC 4364 §4.3.4 + RFC 8277: <length, label, RD(8), prefix>
+            let n = |ls: &[u32], rd, p| Nlri::VpnV4(VpnV4Nlri { labels: stack(ls), rd, prefix: p });
+            v.push(("L100 rd0 0/0", n(&[100], rd0(), p4(0, 0, 0, 0, 0))));
+            v.push(("L16 rd1 10.1/16", n(&[16], rd1(), p4(10, 1, 0, 0, 16))));
+            v.push(("L1048575 rd2 192.0.2/24", n(&[0xFFFFF], rd2(), p4(192, 0, 2, 0, 24))));
+            v.push(("L100 rd0 198.51.100.1/32", n(&[100], rd0(), p4(198, 51, 100, 1, 32))));
+            v.push(("L100 rd1 198.51.100.1/32", n(&[100], rd1(), p4(198, 51, 100, 1, 32))));
+            v.push(("stack2 rd0 203.0.113.1/32", n(&[100, 200], rd0(), p4(203, 0, 113, 1, 32))));
+            // 6 labels: 144+64+32 = 240 bits
+            v.push(("stack6 rd0 203.0.113.2/32", n(&[101, 102, 103, 104, 105, 106], rd0(), p4(203, 0, 113, 2, 32))));
+        }
+        Family::IPV6_VPN => {
+            // RFC 4659 §3.2.1
+            let n = |ls: &[u32], rd, p| Nlri::VpnV6(VpnV6Nlri { labels: stack(ls), rd, prefix: p });
+            v.push(("L100 rd0 ::/0", n(&[100], rd0(), p6("::", 0))));
+            v.push(("L16 rd1 2001:db8::/32", n(&[16], rd1(), p6("2001:db8::", 32))));
+            v.push(("L1048575 rd2 2001:db8:0:1::/64", n(&[0xFFFFF], rd2(), p6("2001:db8:0:1::", 64))));
+            v.push(("L100 rd0 2001:db8::1/128", n(&[100], rd0(), p6("2001:db8::1", 128))));
+            // 2 labels: 48+64+128 = 240 bits
+            v.push(("stack2 rd0 2001:db8::2/128", n(&[100, 200], rd0(), p6("2001:db8::2", 128))));
+        }
+        Family::L2VPN_EVPN => {
+            let esi = Esi([0x00, 1, 2, 3, 4, 5, 6, 7, 8, 9]);
+            let mac = [0x02, 0x00, 0x5e, 0x10, 0x00, 0x01];
+            // type 3, IPv4 originator: 17 bytes (smallest), RFC 7432 §7.3
+            v.push(("t3-v4", Nlri::Evpn(EvpnNlri::InclusiveMulticastEthernetTag(InclusiveMulticastEthernetTag {
+                rd: rd0(), etag: 0, originating_router_ip: v4a("192.0.2.1"),
+            }))));
+            v.push(("t3-v6", Nlri::Evpn(EvpnNlri::InclusiveMulticastEthernetTag(InclusiveMulticastEthernetTag {
+                rd: rd1(), etag: 100, originating_router_ip: v6a("2001:db8::1"),
+            }))));
+            // type 1, RFC 7432 §7.1: 25 bytes; MAX-ET = 0xFFFFFFFF for per-ES A-D
+            v.push(("t1", Nlri::Evpn(EvpnNlri::EthernetAutoDiscovery(EthernetAutoDiscoveryRoute {
+                rd: rd0(), esi, etag: 0xFFFF_FFFF, label: 0,
+            }))));
+            v.push(("t1-label", Nlri::Evpn(EvpnNlri::EthernetAutoDiscovery(EthernetAutoDiscoveryRoute {
+                rd: rd2(), esi: Esi::ZERO, etag: 5, label: 0xFFFFFF,
+            }))));
+            // type 2, RFC 7432 §7.2: MAC only 33, +IPv4 37, +IPv6 49, +label2 +3
+            v.push(("t2-mac", Nlri::Evpn(EvpnNlri::MacIpAdvertisement(MacIpAdvertisement {
+                rd: rd0(), esi: Esi::ZERO, etag: 0, mac, ip: None, label1: 10010, label2: None,
+            }))));
+            v.push(("t2-mac-v4", Nlri::Evpn(EvpnNlri::MacIpAdvertisement(MacIpAdvertisement {
+                rd: rd0(), esi, etag: 0, mac, ip: Some(v4a("10.0.0.1")), label1: 10010, label2: None,
+            }))));
+            v.push(("t2-mac-v4-l2", Nlri::Evpn(EvpnNlri::MacIpAdvertisement(MacIpAdvertisement {
+                rd: rd1(), esi, etag: 1, mac, ip: Some(v4a("10.0.0.1")), label1: 10010, label2: Some(10020),
+            }))));
+            v.push(("t2-mac-v6-l2", Nlri::Evpn(EvpnNlri::MacIpAdvertisement(MacIpAdvertisement {
+                rd: rd2(), esi, etag: 2, mac: [0xff; 6], ip: Some(v6a("2001:db8::1")), label1: 0xFFFFFF, label2: Some(1),
+            }))));
+            // type 4, RFC 7432 §7.4: 23 / 35
+            v.push(("t4-v4", Nlri::Evpn(EvpnNlri::EthernetSegment(EthernetSegmentRoute {
+                rd: rd0(), esi, originating_router_ip: v4a("192.0.2.1"),
+            }))));
+            v.push(("t4-v6", Nlri::Evpn(EvpnNlri::EthernetSegment(EthernetSegmentRoute {
+                rd: rd0(), esi, originating_router_ip: v6a("2001:db8::1"),
+            }))));
+            // type 5, RFC 9136 §3.1: 34 / 58
+            v.push(("t5-v4", Nlri::Evpn(EvpnNlri::EthernetIpPrefix(EthernetIpPrefixRoute {
+                rd: rd0(), esi: Esi::ZERO, etag: 0, ip_prefix: v4a("10.1.0.0"), prefix_len: 16,
+                gateway_ip: v4a("0.0.0.0"), label: 5000,
+            }))));
+            v.push(("t5-v4-gw", Nlri::Evpn(EvpnNlri::EthernetIpPrefix(EthernetIpPrefixRoute {
+                rd: rd0(), esi: Esi::ZERO, etag: 0, ip_prefix: v4a("10.2.0.0"), prefix_len: 16,
+                gateway_ip: v4a("10.0.0.254"), label: 0,
+            }))));
+            v.push(("t5-v6", Nlri::Evpn(EvpnNlri::EthernetIpPrefix(EthernetIpPrefixRoute {
+                rd: rd2(), esi, etag: 0xFFFF_FFFF, ip_prefix: v6a("2001:db8::1"), prefix_len: 128,
+                gateway_ip: v6a("2001:db8::fe"), label: 0xFFFFFF,
+            }))));
+        }
+        Family::RTC => {
+            // RFC 4684 §4: prefix length 0, or 32..96 bits; the code accepts 0 / 32 / 96
+            v.push(("wildcard", Nlri::Rtc(RtcNlri::wildcard())));
+            v.push(("as-wildcard", Nlri::Rtc(RtcNlri { match_type: MatchType::AsWildcard { origin_as: 65001 } })));
+            v.push(("rt-2oct", Nlri::Rtc(RtcNlri { match_type: MatchType::ExactMatch {
+                origin_as: 65001, route_target: [0x00, 0x02, 0xfd, 0xe9, 0, 0, 0, 100] } })));
+            v.push(("rt-ipv4", Nlri::Rtc(RtcNlri { match_type: MatchType::ExactMatch {
+                origin_as: 4_200_000_000, route_target: [0x01, 0x02, 192, 0, 2, 1, 0, 7] } })));
+            v.push(("rt-4oct", Nlri::Rtc(RtcNlri { match_type: MatchType::ExactMatch {
+                origin_as: 0, route_target: [0x02, 0x02, 0xfa, 0x56, 0xea, 0x00, 0xff, 0xff] } })));
+        }
+        Family::IPV4_FLOWSPEC => {
+            let n = |c| Nlri::FlowspecV4(FlowspecV4Nlri { components: c });
+            v.push(("dst0/0", n(vec![F4::DstPrefix(p4(0, 0, 0, 0, 0))])));
+            v.push(("dst/24", n(vec![F4::DstPrefix(p4(192, 0, 2, 0, 24))])));
+            v.push(("dst+src+tcp80", n(vec![
+                F4::DstPrefix(p4(192, 0, 2, 0, 24)),
+                F4::SrcPrefix(p4(198, 51, 100, 0, 25)),
+                F4::Protocol(eq1(6)),
+                F4::DstPort(eq1(80)),
+            ])));
+            v.push(("proto-only", n(vec![F4::Protocol(any_of(&[1, 6, 17]))])));
+            v.push(("frag-not", n(vec![F4::Fragment(vec![op(Op::NOT | Op::MATCH, false, true, 0x0a)])])));
+            v.push(("all12", n(fs4_all_components(p4(192, 0, 2, 1, 32), p4(198, 51, 100, 1, 32), &[80, 8080]))));
+            // body >= 240 bytes: 2-byte length form (RFC 8955 §4.1)
+            v.push(("all12-big", n(fs4_all_components(p4(192, 0, 2, 2, 32), p4(198, 51, 100, 2, 32), &many_ports(100)))));
+        }
+        Family::IPV6_FLOWSPEC => {
+            let n = |c| Nlri::FlowspecV6(FlowspecV6Nlri { components: c });
+            v.push(("dst::/0", n(vec![F6::DstPrefix { prefix: p6("::", 0), offset: 0 }])));
+            v.push(("dst/64", n(vec![F6::DstPrefix { prefix: p6("2001:db8:0:1::", 64), offset: 0 }])));
+            v.push(("dst+src+nh6", n(vec![
+                F6::DstPrefix { prefix: p6("2001:db8::", 32), offset: 0 },
+                F6::SrcPrefix { prefix: p6("2001:db8:ffff::", 48), offset: 0 },
+                F6::NextHeader(eq1(6)),
+                F6::DstPort(eq1(443)),
+            ])));
+            v.push(("flowlabel", n(vec![F6::FlowLabel(eq1(0xFFFFF))])));
+            v.push(("all13", n(fs6_all_components(p6("2001:db8::1", 128), p6("2001:db8::2", 128), &[80, 8080]))));
+            v.push(("all13-big", n(fs6_all_components(p6("2001:db8::3", 128), p6("2001:db8::4", 128), &many_ports(100)))));
+        }
+        Family::IPV4_FLOWSPEC_VPN => {
+            // RFC 8955 §8: <length, RD(8), components>
+            let n = |rd, c| Nlri::FlowspecVpnV4(FlowspecVpnV4Nlri { rd, components: c });
+            v.push(("rd0 dst0/0", n(rd0(), vec![F4::DstPrefix(p4(0, 0, 0, 0, 0))])));
+            v.push(("rd1 dst/24", n(rd1(), vec![F4::DstPrefix(p4(192, 0, 2, 0, 24))])));
+            v.push(("rd2 dst+udp53", n(rd2(), vec![
+                F4::DstPrefix(p4(192, 0, 2, 53, 32)), F4::Protocol(eq1(17)), F4::DstPort(eq1(53)),
+            ])));
+            v.push(("rd0 all12", n(rd0(), fs4_all_components(p4(192, 0, 2, 1, 32), p4(198, 51, 100, 1, 32), &[80, 8080]))));
+            v.push(("rd0 all12-big", n(rd0(), fs4_all_components(p4(192, 0, 2, 2, 32), p4(198, 51, 100, 2, 32), &many_ports(100)))));
+        }
+        Family::IPV6_FLOWSPEC_VPN => {
+            let n = |rd, c| Nlri::FlowspecVpnV6(FlowspecVpnV6Nlri { rd, components: c });
+            v.push(("rd0 dst::/0", n(rd0(), vec![F6::DstPrefix { prefix: p6("::", 0), offset: 0 }])));
+            v.push(("rd1 dst/64", n(rd1(), vec![F6::DstPrefix { prefix: p6("2001:db8:0:1::", 64), offset: 0 }])));
+            v.push(("rd0 all13", n(rd0(), fs6_all_components(p6("2001:db8::1", 128), p6("2001:db8::2", 128), &[80, 8080]))));
+            v.push(("rd0 all13-big", n(rd0(), fs6_all_components(p6("2001:db8::3", 128), p6("2001:db8::4", 128), &many_ports(100)))));
+        }
+        Family::LS => {
+            use rustybgp_packet::ls::{PROTOCOL_DIRECT, PROTOCOL_ISIS_L1, PROTOCOL_OSPF_V2, PROTOCOL_OSPF_V3};
+            // RFC 9552 §5.2: <type(2), length(2), protocol-id, identifier(8), descriptors>
+            v.push(("node-min", Nlri::Ls(BgpLsNlri::Node(BgpLsNodeNlri {
+                protocol_id: PROTOCOL_OSPF_V2, identifier: 0,
+                local_node: NodeDescriptor { igp_router_id: Some(vec![10, 0, 0, 1]), ..Default::default() },
+            }))));
+            v.push(("node-ospf", Nlri::Ls(BgpLsNlri::Node(BgpLsNodeNlri {
+                protocol_id: PROTOCOL_OSPF_V2, identifier: 1, local_node: ls_node_full(1),
+            }))));
+            v.push(("node-isis-pseudo", Nlri::Ls(BgpLsNlri::Node(BgpLsNodeNlri {
+                protocol_id: PROTOCOL_ISIS_L1, identifier: u64::MAX, local_node: ls_node_isis(1),
+            }))));
+            v.push(("link-min", Nlri::Ls(BgpLsNlri::Link(BgpLsLinkNlri {
+                protocol_id: PROTOCOL_OSPF_V2, identifier: 0,
+                local_node: ls_node_full(1), remote_node: ls_node_full(2),
+                link_desc: vec![LinkDescTlv::Ipv4InterfaceAddr([10, 0, 0, 1]), LinkDescTlv::Ipv4NeighborAddr([10, 0, 0, 2])],
+            }))));
+            v.push(("link-full", ls_link_big(7)));
+            v.push(("prefix-v4", Nlri::Ls(BgpLsNlri::PrefixV4(BgpLsPrefixNlri {
+                protocol_id: PROTOCOL_OSPF_V2, identifier: 0, local_node: ls_node_full(1),
+                prefix_desc: vec![
+                    PrefixDescTlv::OspfRouteType(1),
+                    PrefixDescTlv::IpReachability { prefix_len: 24, addr: vec![192, 0, 2] },
+                ],
+            }))));
+            v.push(("prefix-v4-direct/0", Nlri::Ls(BgpLsNlri::PrefixV4(BgpLsPrefixNlri {
+                protocol_id: PROTOCOL_DIRECT, identifier: 0, local_node: ls_node_full(3),
+                prefix_desc: vec![PrefixDescTlv::IpReachability { prefix_len: 0, addr: vec![] }],
+            }))));
+            v.push(("prefix-v6", Nlri::Ls(BgpLsNlri::PrefixV6(BgpLsPrefixNlri {
+                protocol_id: PROTOCOL_OSPF_V3, identifier: 2, local_node: ls_node_full(1),
+                prefix_desc: vec![
+                    PrefixDescTlv::MultiTopoId(vec![2]),
+                    PrefixDescTlv::OspfRouteType(5),
+                    PrefixDescTlv::IpReachability { prefix_len: 128, addr: "2001:db8::1".parse::<Ipv6Addr>().unwrap().octets().to_vec() },
+                ],
+            }))));
+        }
+        Family::IPV4_MUP | Family::IPV6_MUP => {
+            // draft-ietf-bess-mup-safi §3.1: <arch type 1, route type(2), length(1), body>
+            let v4 = family == Family::IPV4_MUP;
+            let a = |s4: &str, s6: &str| if v4 { v4a(s4) } else { v6a(s6) };
+            let full: u8 = if v4 { 32 } else { 128 };
+            v.push(("isd/0", Nlri::Mup(MupNlri::InterworkSegmentDiscovery(MupInterworkSegmentDiscoveryRoute {
+                rd: rd0(), prefix_addr: a("0.0.0.0", "::"), prefix_len: 0,
+            }))));
+            v.push(("isd/24", Nlri::Mup(MupNlri::InterworkSegmentDiscovery(MupInterworkSegmentDiscoveryRoute {
+                rd: rd1(), prefix_addr: a("10.0.1.0", "2001:d00::"), prefix_len: 24,
+            }))));
+            v.push(("dsd", Nlri::Mup(MupNlri::DirectSegmentDiscovery(MupDirectSegmentDiscoveryRoute {
+                rd: rd2(), address: a("192.0.2.1", "2001:db8::1"),
+            }))));
+            v.push(("t1st", Nlri::Mup(MupNlri::Type1SessionTransformed(MupType1SessionTransformedRoute {
+                rd: rd0(), prefix_addr: a("10.10.0.1", "2001:db8:a::1"), prefix_len: full, teid: 0x12345678, qfi: 9,
+                endpoint_address: a("192.0.2.10", "2001:db8::10"), source_address: None,
+            }))));
+            v.push(("t1st-src", Nlri::Mup(MupNlri::Type1SessionTransformed(MupType1SessionTransformedRoute {
+                rd: rd0(), prefix_addr: a("10.10.0.2", "2001:db8:a::2"), prefix_len: full, teid: 0xFFFF_FFFF, qfi: 63,
+                endpoint_address: a("192.0.2.10", "2001:db8::10"), source_address: Some(a("192.0.2.20", "2001:db8::20")),
+            }))));
+            v.push(("t2st-noteid", Nlri::Mup(MupNlri::Type2SessionTransformed(MupType2SessionTransformedRoute {
+                rd: rd0(), endpoint_address_length: full, endpoint_address: a("192.0.2.30", "2001:db8::30"), teid: 0,
+            }))));
+            v.push(("t2st-teid16", Nlri::Mup(MupNlri::Type2SessionTransformed(MupType2SessionTransformedRoute {
+                rd: rd0(), endpoint_address_length: full + 16, endpoint_address: a("192.0.2.31", "2001:db8::31"), teid: 0xABCD_0000,
+            }))));
+            v.push(("t2st-teid32", Nlri::Mup(MupNlri::Type2SessionTransformed(MupType2SessionTransformedRoute {
+                rd: rd0(), endpoint_address_length: full + 32, endpoint_address: a("192.0.2.32", "2001:db8::32"), teid: 0x1234_5678,
+            }))));
+        }
+        Family::IPV4_SRPOLICY | Family::IPV6_SRPOLICY => {
+            // RFC 9830 §2.1: <length 96|192, distinguisher(4), color(4), endpoint>
+            let v4 = family == Family::IPV4_SRPOLICY;
+            let a = |s4: &str, s6: &str| if v4 { v4a(s4) } else { v6a(s6) };
+            v.push(("null-endpoint", Nlri::SrPolicy(SrPolicyNlri { distinguisher: 0, color: 0, endpoint: a("0.0.0.0", "::") })));
+            v.push(("d1-c100", Nlri::SrPolicy(SrPolicyNlri { distinguisher: 1, color: 100, endpoint: a("192.0.2.1", "2001:db8::1") })));
+            v.push(("d2-c100", Nlri::SrPolicy(SrPolicyNlri { distinguisher: 2, color: 100, endpoint: a("192.0.2.1", "2001:db8::1") })));
+            v.push(("max", Nlri::SrPolicy(SrPolicyNlri { distinguisher: u32::MAX, color: u32::MAX, endpoint: a("203.0.113.255", "2001:db8:ffff:ffff:ffff:ffff:ffff:ffff") })));
+        }
+        _ => {}
+    }
+    v
+}
+
+/// Values the code encodes and decodes consistently but whose wire form is
+/// not what the RFC specifies (kept out of `nlris`).
+pub fn nlris_code_only(family: Family) -> Vec<(&'static str, Nlri)> {
+    match family {
+        // RFC 9514 §5.1: SRv6 SID Information TLV (518) carries the 16-byte SID only
+        // and MT-ID travels in TLV 263; the code writes MT-ID(2)+reserved(2)+SID(16).
+        Family::LS => vec![("srv6-sid", Nlri::Ls(BgpLsNlri::Srv6Sid(BgpLsSrv6SidNlri {
+            protocol_id: rustybgp_packet::ls::PROTOCOL_ISIS_L2, identifier: 0, local_node: ls_node_isis(1),
+            sids: vec!["2001:db8:0:1::".parse::<Ipv6Addr>().unwrap().octets()], multi_topo_ids: vec![2],
+        })))],
+        // RFC 8956 §3.1: the pattern holds (length - offset) bits; the code always
+        // writes ceil(length/8) bytes.
+        Family::IPV6_FLOWSPEC => vec![("dst-offset32", Nlri::FlowspecV6(FlowspecV6Nlri {
+            components: vec![F6::DstPrefix { prefix: p6("2001:db8:0:1::", 64), offset: 32 }],
+        }))],
+        _ => vec![],
+    }
+}
+
+pub fn nlri_has_label_stack(n: &Nlri) -> bool {
+    match n {
+        Nlri::LabeledV4(x) => x.labels.labels().len() > 1,
+        Nlri::LabeledV6(x) => x.labels.labels().len() > 1,
+        Nlri::VpnV4(x) => x.labels.labels().len() > 1,
+        Nlri::VpnV6(x) => x.labels.labels().len() > 1,
+        _ => false,
+    }
+}
+
+pub fn nlri_wire_len(n: &Nlri) -> usize {
+    n.encode_to_bytes().len()
+}
+
+pub fn nlris(family: Family, size: NlriSize) -> Vec<Nlri> {
+    let all = nlris_named(family);
+    match size {
+        NlriSize::All => all.into_iter().map(|x| x.1).collect(),
+        NlriSize::Min => {
+            let mut best: Option<Nlri> = None;
+            for (_, n) in all {
+                if best.as_ref().is_none_or(|b| nlri_wire_len(&n) < nlri_wire_len(b)) {
+                    best = Some(n);
+                }
+            }
+            best.into_iter().collect()
+        }
+        NlriSize::Max => {
+            let mut best: Option<Nlri> = None;
+            for (_, n) in all {
+                if nlri_has_label_stack(&n) {
+                    continue;
+                }
+                if best.as_ref().is_none_or(|b| nlri_wire_len(&n) > nlri_wire_len(b)) {
+                    best = Some(n);
+                }
+            }
+            best.into_iter().collect()
+        }
+    }
 }
